@@ -11,11 +11,13 @@ from mc import explore, hw_harness as H
 ID = "C23"
 LEVEL = "model_checking"
 META = dict(
-    technique="explicit-state BFS on the real decorator with subset-construction conformance to a reference model of the documented protocol (TLC graph replay in the thorough tier)",
+    technique="explicit-state BFS on the real decorator with subset-construction conformance to a reference model of the documented protocol; thorough tier: the model is the TLC state graph of models/HwRecovery.tla, every edge of which is replayed against the decorator",
     text="All event histories up to the depth bound are applied to the real ErrorRecoveryDecorator; every transition is one step "
          "of the reference model transcribed from docs/src/Error Recovery.rst and the implementation's state must be among the "
          "model's successors; masking, raising and the Connection Status tag are checked in every state.",
-    note="The model leaves open when an expired timeout is noticed and whether a reconnect counts as a success for the Issue "
+    note="Thorough tier: TLC checks the TLA+ model's own invariants, its labelled state graph (-dump dot,actionlabels) replaces the "
+         "Python model after an edge-for-edge cross-check of the two, and one trace per graph edge is replayed on the decorator. "
+         "A write that is filtered out as unmodified never reaches the hardware and is not a success. The model leaves open when an expired timeout is noticed and whether a reconnect counts as a success for the Issue "
          "timeout (the text is silent); fake hardware fails whole calls; timeouts scaled to 10 s / 100 s.",
 )
 
@@ -35,9 +37,12 @@ class Pair:
         s = self.sys
         rec = s.apply(ev)
         kind = H.event_kind(ev, rec["pre"])
+        skipped = kind == "rw_ok" and rec["hw_calls"] == 0 and rec["pre"] in ("OK", "Issue")
+        if skipped:
+            kind = "elapse"       # a write of an unchanged value is filtered out before it reaches the hardware: not a success
         if self.graph is not None:
             from mc.tlc_replay import tla_label
-            self.model.step_label(tla_label(ev, rec["pre"]))
+            self.model.step_label("Elapse(0)" if skipped else tla_label(ev, rec["pre"]))
         else:
             self.model.step(kind, s.clock.now)
         allowed = self.model.names()
@@ -96,7 +101,7 @@ def canon(p: Pair):
 
 
 def run(ctx):
-    depth = 6 if ctx.quick else 7
+    depth = 6        # both tiers; the thorough tier has the larger alphabet and the TLC model
     alphabet = H.EV_QUICK if ctx.quick else H.EV_THOROUGH
     ctx.prove_deterministic(lambda h: build(h, True).sys.obs,
                             [("rb_fail", "el_rec", "rb_fail", "el_err", "rb_ok", "tick_ok"), ("wb_new_fail", "rb_ok")])
@@ -134,7 +139,39 @@ def run(ctx):
              "edges of the five-state protocol exercised",
         samples=samples, depth=depth, alphabet=list(alphabet), exhaustive=True)
     if graph is not None:
-        tlc_info["graph_edges_followed_by_the_implementation"] = len(covered)
+        tlc_info["graph_edges_followed_during_the_exploration"] = len(covered)
+        # replay of the model's traces: one trace per edge of the TLC graph (shortest path to the edge's source, then the
+        # edge), translated to harness events and run on the real decorator with the same conformance oracle
+        from mc import tlc_replay
+        n_tr = n_steps = n_untranslatable = n_diverged = 0
+        for root, labels, edge in tlc_replay.edge_traces(graph):
+            for conn in (graph.nodes[root][0] == "OK",):
+                p = Pair(conn, graph, covered)
+                hist = []
+                ok = True
+                for lb in labels:
+                    ev = tlc_replay.event_for(lb, p.sys.dec.state.name)
+                    if ev is None:
+                        ok = False
+                        n_untranslatable += 1
+                        break
+                    if lb not in ("RwOk", "RwErr") and tlc_replay.tla_label(ev, p.sys.dec.state.name) != lb:
+                        ok = False
+                        n_untranslatable += 1
+                        break
+                    hist.append(ev)
+                    rec = p.apply(ev)
+                    n_steps += 1
+                    for sig, what in rec["problems"]:
+                        ctx.violation(sig, what, {"connected": conn, "history": list(hist)})
+                    if not p.model.states:
+                        break
+                n_tr += 1
+                if ok and edge not in covered:
+                    n_diverged += 1          # the implementation took another (allowed) branch of the model
+        tlc_info.update(model_traces_replayed=n_tr, model_trace_steps=n_steps, traces_without_harness_event=n_untranslatable,
+                        traces_where_the_implementation_took_another_allowed_branch=n_diverged,
+                        graph_edges_followed_by_the_implementation=len(covered))
         ctx.coverage.update(tlc_model=tlc_info)
     ctx.assumptions += ["model transcribed from docs/src/Error Recovery.rst; it leaves open when an expired timeout is noticed "
                         "(at the elapse or at the next failing/any I/O request) and is deterministic elsewhere",
